@@ -222,3 +222,60 @@ theorem number_string_inverse (s : Bytes) (order : Nat) (h : s.length = orderlen
   rw [numberToString_eq _ _ hlt, ← h, beFixed_beVal]
 
 end Util
+
+/-! ## `orderlen` in terms of the bit length (appended) -/
+namespace Util
+
+theorem bitLength_zero : bitLength 0 = 0 := by rw [bitLength]
+theorem bitLength_pos (n : Nat) (h : 0 < n) : bitLength n = bitLength (n / 2) + 1 := by
+  cases n with
+  | zero => omega
+  | succ n => rw [bitLength]
+
+theorem lt_two_pow_bitLength (n : Nat) : n < 2 ^ bitLength n := by
+  induction n using bitLength.induct with
+  | case1 => simp [bitLength_zero]
+  | case2 n ih => rw [bitLength_pos (n+1) (by omega), Nat.pow_succ]; omega
+
+theorem two_pow_bitLength_le (n : Nat) (h : 0 < n) : 2 ^ (bitLength n - 1) ≤ n := by
+  induction n using bitLength.induct with
+  | case1 => omega
+  | case2 n ih =>
+    rw [bitLength_pos (n+1) (by omega)]
+    simp only [Nat.add_sub_cancel]
+    by_cases hq : (n + 1) / 2 = 0
+    · rw [hq, bitLength_zero]; simp
+    · have := ih (by omega)
+      have hp : bitLength ((n+1)/2) = (bitLength ((n+1)/2) - 1) + 1 := by
+        rw [bitLength_pos _ (by omega)]; simp
+      rw [hp, Nat.pow_succ]; omega
+
+/-- `orderlen n = ⌈bitlen(n) / 8⌉` for `n ≥ 1` (the wording of the property) -/
+theorem orderlen_eq_bitLength (n : Nat) (hn : 1 ≤ n) : orderlen n = (bitLength n + 7) / 8 := by
+  have h1 := lt_two_pow_bitLength n
+  have h2 := two_pow_bitLength_le n hn
+  have hb : 1 ≤ bitLength n := by rw [bitLength_pos n hn]; omega
+  have p256 : ∀ l, 256 ^ l = 2 ^ (8 * l) := by intro l; rw [Nat.pow_mul]
+  apply orderlen_unique n _ hn
+  · rw [p256]
+    exact Nat.lt_of_lt_of_le h1 (Nat.pow_le_pow_right (by decide) (by omega))
+  · rw [p256]
+    exact Nat.le_trans (Nat.pow_le_pow_right (by decide) (by omega)) h2
+
+/-- which exception `number_to_string` raises when the number does not fit: `binascii.Error` for an odd number of hex
+digits, `AssertionError` for an even one -/
+theorem numberToString_error_kind (num order : Nat) (h : 256 ^ orderlen order ≤ num) :
+    numberToString num order = if hexLen num % 2 = 1 then .error .binasciiError else .error .assertionError := by
+  have hl := orderlen_pos order
+  have hbig : 2 * orderlen order < hexLen num := by
+    apply Nat.lt_of_not_le; intro hc
+    have := (hexLen_le_iff num (2 * orderlen order) (by omega)).mp hc
+    rw [← pow256] at this; omega
+  unfold numberToString
+  simp only
+  rw [Nat.max_eq_left (by omega)]
+  split
+  · rfl
+  · rw [if_pos (by omega)]
+
+end Util
